@@ -156,6 +156,9 @@ def run(ctx) -> Result:
         pass
     res.not_decided.append("numeric agreement of accumulated float deltas with the recomputed score (float error)")
     res.not_decided.append("the value a solver reports for its objective")
+    if not res.violations:      # the end-to-end pass adds nothing to an established violation (and may not terminate on it)
+        from . import e2e
+        e2e.check(res, ctx.proj, "C04", ctx.thorough)
     return res
 
 
